@@ -266,3 +266,72 @@ def pre_tag(c, facts, R):
         c.ok(R, {'declarations_loop_block': decl, 'traversal_block': desc, 'set_tag_in_pre_loop': True})
     else:
         c.bad(R, 'pre-tag-not-dominating', 'the declarations pre-tagging loop does not dominate the descendants traversal (use-before-definition breaks)')
+
+
+def var_namespace(c, facts, R):
+    """the tag-variable sequence of a module is seeded with that module's own locator (TagId = (locator, n))"""
+    import mirflow as MF
+    import pathrules as P
+    fn = c.anchor(R, 'oal_compiler::inference::tag')
+    idx = MF.defs_index(fn)
+    sites = P.call_blocks(fn, 'tag::Seq::new')
+    if not sites:
+        c.bad(R, 'no-Seq::new', 'inference::tag no longer creates a per-module sequence of tag variables')
+        return
+    for b, t in sites:
+        sl = MF.slice_back(fn, t['args'][0]['l'], idx) if 'l' in t['args'][0] else {'args': set(), 'calls': []}
+        names = sorted({P.strip(n).split('::')[-1] for n, _, _ in sl['calls']} - {'clone', 'deref', 'borrow', 'as_ref'})
+        # parameters: 1 = mods, 2 = loc
+        if sl['args'] == {2} and not names:
+            c.ok(R, {'Seq::new': 'seeded with the `loc` parameter (the module being tagged)'})
+        else:
+            c.bad(R, 'seq-not-seeded-with-module-locator', 'inference::tag seeds the tag-variable sequence from %s%s instead of the locator of the module being tagged: variables of different modules share identities and the verdict depends on declaration order'
+                  % (sorted(sl['args']), ' via ' + ','.join(names) if names else ''))
+    # TagId carries the locator: Seq::next copies it
+    nx = c.anchor(R, 'oal_compiler::inference::tag::Seq::next')
+    ok = False
+    for b, blk in nx.blocks():
+        for s in blk['stmts']:
+            if s['s'] == 'assign' and s['rv']['r'] == 'aggr' and s['rv'].get('adt', '').endswith('TagId') and s['place']['l'] == 0:
+                f = s['rv']['fields']
+                nidx = MF.defs_index(nx)
+                lo = s['rv']['ops'][f.index('loc')]
+                no = s['rv']['ops'][f.index('n')]
+                a = MF.slice_back(nx, lo['l'], nidx) if 'l' in lo else {'args': set()}
+                ok = 1 in a['args'] and 'l' in no
+    if ok:
+        c.ok(R, {'Seq::next': 'TagId { loc: self.loc, n }'})
+    else:
+        c.bad(R, 'tagid-without-locator', 'Seq::next no longer builds TagId from the sequence locator and counter')
+
+
+def identity_first(c, facts, R):
+    """occurs(a, b) is asked only when a != b: the equality short-circuit dominates the variable branches"""
+    import pathrules as P
+    fn = c.anchor(R, 'oal_compiler::inference::unify::unify')
+    eqs = [(b, t) for b, t in P.call_blocks(fn, 'PartialEq::eq', 'PartialEq::ne') if 'Tag' in (callee_of(t).get('self_ty') or '')]
+    occ = P.call_blocks(fn, 'unify::occurs')
+    if not occ:
+        c.bad(R, 'no-occurs-call', 'unify() no longer performs an occurs check')
+        return
+    if not eqs:
+        c.bad(R, 'no-identity-test', 'unify() no longer short-circuits identical tags')
+        return
+    for ob, ot in occ:
+        ok = False
+        for eb, et in eqs:
+            sw = fn.mir['blocks'][et['target']]['term']
+            if sw['t'] != 'switch':
+                continue
+            ne = callee_of(et)['def'].endswith('::ne')
+            f_t = [x for v, x in sw['targets'] if v == '0']
+            if not f_t:
+                continue
+            differ = sw['otherwise'] if ne else f_t[0]
+            same = f_t[0] if ne else sw['otherwise']
+            if fn.dominates(differ, ob) and ob not in fn.reachable_from(same, avoid=[et['target']]):
+                ok = True
+        if ok:
+            c.ok(R, {'occurs_line': ot['ln'], 'only_when_operands_differ': True})
+        else:
+            c.bad(R, 'occurs-before-identity-test', 'unify() can call occurs(a, b) with a == b (X = X is then reported as a recursive type and the verdict depends on equation order) (%s:%s)' % (fn.file, ot['ln']))
